@@ -400,6 +400,58 @@ fn main() {
                 k += 1;
             }
         }
+        "exhaustive" => {
+            // every ordered list of length <= 3 over a pool of seven boxes (exact dyadic geometry: a duplicate pair, a
+            // nested pair, a pair overlapping by exactly one half, a far box, a rotated box, an invalid box)
+            // x nms threshold {1/4, 1/2} x score mode {none, descending, ascending by position} x score threshold {None, 0.45}
+            let pool = [
+                RawBox { xc: 10.0, yc: 10.0, angle: None, aspect: 1.0, height: 4.0, score: None },
+                RawBox { xc: 12.0, yc: 10.0, angle: None, aspect: 1.0, height: 4.0, score: None },
+                RawBox { xc: 10.0, yc: 10.0, angle: None, aspect: 1.0, height: 4.0, score: None },
+                RawBox { xc: 10.0, yc: 10.0, angle: None, aspect: 1.0, height: 2.0, score: None },
+                RawBox { xc: 30.0, yc: 30.0, angle: None, aspect: 1.0, height: 4.0, score: None },
+                RawBox { xc: 11.0, yc: 10.0, angle: Some(0.5), aspect: 1.0, height: 4.0, score: None },
+                RawBox { xc: 10.0, yc: 10.0, angle: None, aspect: 1.0, height: 0.0, score: None },
+            ];
+            let mut lists: Vec<Vec<usize>> = vec![vec![]];
+            let mut frontier: Vec<Vec<usize>> = vec![vec![]];
+            for _ in 0..3 {
+                let mut next = vec![];
+                for l in &frontier {
+                    for i in 0..pool.len() {
+                        let mut m = l.clone();
+                        m.push(i);
+                        next.push(m);
+                    }
+                }
+                lists.extend(next.iter().cloned());
+                frontier = next;
+            }
+            let mut k = 0usize;
+            for l in &lists {
+                for thr in [0.25f32, 0.5] {
+                    for mode in 0..3 {
+                        for st in [None, Some(0.45f32)] {
+                            let boxes: Vec<RawBox> = l
+                                .iter()
+                                .enumerate()
+                                .map(|(pos, i)| {
+                                    let mut b = pool[*i];
+                                    b.score = match mode {
+                                        0 => None,
+                                        1 => Some(0.875 - 0.125 * pos as f32),
+                                        _ => Some(0.375 + 0.125 * pos as f32),
+                                    };
+                                    b
+                                })
+                                .collect();
+                            run_case(k, "exhaustive", thr, st, &boxes);
+                            k += 1;
+                        }
+                    }
+                }
+            }
+        }
         "replay" => {
             let txt = std::fs::read_to_string(a.file.expect("--file")).unwrap();
             for (k, line) in txt.lines().enumerate() {
@@ -409,7 +461,7 @@ fn main() {
             }
         }
         _ => {
-            eprintln!("usage: nms gen --seed S --n N | nms replay --file F");
+            eprintln!("usage: nms gen --seed S --n N | nms exhaustive | nms replay --file F");
             std::process::exit(2);
         }
     }
